@@ -117,6 +117,18 @@ mutual
       | _, _ => none
 end
 
+/-! ### the verbose JSON form -/
+
+/-- `d.to_json(compact=False)` (base.py:1399-1405): the symbolic-Object form of the ROOT only —
+its `value` and the list `children`; every child is serialised by its own `to_json()`, i.e. in
+the compact form (`{'format': 'compact', 'value': …}`). -/
+def toVerbose : DNA → Val × List Nest
+  | .mk v cs => (v, toCompactDeepList cs)
+
+/-- `from_json` of the verbose form (base.py:1475-1480): the children are parsed from their
+compact values, then `DNA(value, children)` normalises (`mk'`). -/
+def parseVerbose (j : Val × List Nest) : Option DNA := (parseList j.2).map (DNA.mk' j.1)
+
 /-! ### from_numbers -/
 
 def takeIdx (n : Nat) : List Val → Option (Nat × List Val)
